@@ -206,6 +206,13 @@ pub fn record(args: &[String]) -> i32 {
             for _ in 0..(1 + rng.below(3)) {
                 if rng.chance(2, 3) { text.push_str(rng.pick_str(&pool)); } else { text.push_str(rng.pick_str(&ALPHA)); }
             }
+            // bytes no key contains (NUL is the terminator label of the double array), in front of and inside keys
+            if rng.chance(1, 5) {
+                let cs: Vec<char> = text.chars().collect();
+                let at = rng.below(cs.len() + 1);
+                let ins = *rng.pick(&['\u{0}', '\u{0}', '\u{1}', '\u{7f}']);
+                text = cs[..at].iter().chain(std::iter::once(&ins)).chain(cs[at..].iter()).collect();
+            }
             let bytes = text.as_bytes().to_vec();
             let off = rng.below(bytes.len() + 1);
             let r = catch(std::panic::AssertUnwindSafe(|| {
